@@ -87,6 +87,7 @@ class World:
         self.sparse, self.selfc = variant == "sparse", variant in ("selfc", "selfc_inplace")
         self.d = _disc_cls(self.sparse, self.selfc, variant == "selfc_inplace")()
         self.last_b = None
+        self.last_out = None  # the data returned by the last execution (the caller may modify its arrays)
         self.h5 = os.path.join(scratch, f"c05_{os.getpid()}_{next(_COUNTER)}.h5")
         self._set_cache()
         self.shared = {"a": np.array([9.0]), "b": np.array([9.0, 9.0])}
@@ -119,6 +120,13 @@ class World:
                 pass
 
 
+V0 = ([1.0], [0.0, 3.0])
+
+
+def _val(name):
+    return V0 if name == "v0" else VALS[name]
+
+
 def _dense(m):
     return np.asarray(m.todense()) if hasattr(m, "todense") else np.asarray(m)
 
@@ -134,12 +142,21 @@ class Spec:
     def build(self, hist):
         w = World(self.policy, self.variant, self.scratch)
         for op in hist[1:]:
-            self._apply(w, op, check=False)
+            try:
+                self._apply(w, op, check=False)
+            except Exception:
+                pass
         return w
 
     def enabled(self, w, hist):
         ops = []
         inplace = self.variant == "selfc_inplace"  # its body modifies the arrays it is given: only fresh arrays are passed
+        if self.variant == "sparse":
+            # a point with zero components: its sparse Jacobian blocks have an empty trailing column / are empty
+            ops += [["exec", "v0"], ["lin_all", "v0"]]
+        if w.last_out is not None and not self.variant.startswith("selfc"):
+            # the caller modifies in place the input arrays found in the data returned by the last call, and calls again
+            ops += [["exec_ret", v] for v in list(VALS)[:2]]
         for v in VALS:
             ops += [["exec", v]] + ([] if inplace else [["exec_alias", v]])
             if not self.variant.startswith("selfc"):
@@ -153,7 +170,13 @@ class Spec:
         return ops
 
     def apply(self, w, op):
-        return self._apply(w, op, check=True)
+        try:
+            return self._apply(w, op, check=True)
+        except Rejected:
+            raise
+        except Exception as e:  # a legal call on a cached discipline must behave like the uncached one: it never raises here
+            w.problems.append(("operation-raises", f"{op}: {type(e).__name__}: {str(e)[:300]}"))
+            return "raised"
 
     def _apply(self, w, op, check):
         d, tol = w.d, self.policy[1]
@@ -173,19 +196,30 @@ class Spec:
         if kind == "exec_default":
             a, b = np.array(DEFAULT[0]), np.array(DEFAULT[1])
             data = {}
+        elif kind == "exec_ret":
+            a, b = (np.array(x) for x in _val(op[1]))
+            arr_a, arr_b = w.last_out["a"], w.last_out["b"]
+            if not (isinstance(arr_a, np.ndarray) and isinstance(arr_b, np.ndarray) and arr_a.flags.writeable and arr_b.flags.writeable):
+                raise Rejected("returned input arrays are not writeable")
+            arr_a[:] = a
+            arr_b[:] = b
+            data = {"a": arr_a, "b": arr_b}
         elif kind == "exec_prev_out":
             a, b = np.array(w.seen[-1][0]), np.array(w.last_b)
             data = {"a": a.copy(), "b": b.copy()}
         else:
-            a, b = (np.array(x) for x in VALS[op[1]])
+            a, b = (np.array(x) for x in _val(op[1]))
             if kind == "exec_alias":
                 w.shared["a"][:] = a
                 w.shared["b"][:] = b
                 data = {"a": w.shared["a"], "b": w.shared["b"]}
             else:
                 data = {"a": a.copy(), "b": b.copy()}
-        if kind in ("exec", "exec_alias", "exec_default", "exec_prev_out"):
+        if kind in ("exec", "exec_alias", "exec_default", "exec_prev_out", "exec_ret"):
             out = d.execute(data)
+            # only after a call that was given the CALLER's arrays are the returned input arrays the caller's to modify
+            # (after a defaults-only call they are the discipline's own default arrays)
+            w.last_out = out if kind in ("exec", "exec_alias", "exec_ret") else None
             if self.variant.startswith("selfc"):
                 w.last_b = tuple(np.asarray(out["b"]).tolist())
             if check and not self._admissible(w, a, b, lambda ca, cb: self._out_ok(out, ca, cb)):
@@ -296,7 +330,7 @@ class Spec:
             tuple(sorted((o, i) for o, r in (d.jac or {}).items() for i in r)),
             tuple(sorted(d._differentiated_input_names)) if hasattr(d, "_differentiated_input_names") else (),
             tuple(sorted(d._differentiated_output_names)) if hasattr(d, "_differentiated_output_names") else (),
-            w.shared["a"].tobytes(), w.shared["b"].tobytes(), w.last_b,
+            w.shared["a"].tobytes(), w.shared["b"].tobytes(), w.last_b, w.last_out is not None,
             tuple(sorted(set(w.seen))), len(d.runs),
         )
 
@@ -402,7 +436,7 @@ def run(ctx):
     bounds = {}
     if "H" in only:
         for policy in POLICIES:
-            variants = ["dense", "sparse", "selfc", "selfc_inplace"] if policy[0] in ("simple", "memF") or ctx.thorough else ["dense", "selfc_inplace"]
+            variants = ["dense", "sparse", "selfc", "selfc_inplace"] if policy[0] in ("simple", "memF") or ctx.thorough else (["dense", "sparse", "selfc_inplace"] if policy[0] == "hdf" else ["dense", "selfc_inplace"])
             for variant in variants:
                 slow = policy[0] in ("memT", "hdf")
                 depth = (3 if slow else 4) if ctx.thorough else (2 if slow else 3)
